@@ -129,7 +129,8 @@ int main(int argc, char **argv)
         const double sh = argd(par[0]), mo = argd(par[1]);
         const double r = cmb_random_pareto(sh, mo);
         printf("cmb_random_pareto(%.17g, %.17g) = %.17g\n", sh, mo, r);
-        rc = verdict(!(r >= mo) || isinf(r), "pareto not a finite value >= mode");
+        /* for shape < 1/16 or mode > 2^100 the variate itself can exceed the double range: +inf is then not a defect */
+        rc = verdict(!(r >= mo) || (isinf(r) && sh >= 0.0625 && mo <= 0x1p100), "pareto not a finite value >= mode");
     } else if (!strcmp(mode, "logistic") && np >= 2) {
         const double m = argd(par[0]), s = argd(par[1]);
         const double r = cmb_random_logistic(m, s);
